@@ -357,6 +357,10 @@ func registryScenario(sc *RScenario, raw []byte, run int) {
 	json.Unmarshal(raw, &itemsRaw)
 	emit(M{"ev": "reset", "run": run, "items": itemsRaw.Items})
 	c := godi.NewCollection()
+	// twin: in scenarios with module applications every call is ALSO issued directly on a second collection (module
+	// leaves one by one, left to right, stopping at the first failure)
+	twin := godi.NewCollection()
+	var lastMods []godi.ModuleOption // the module values of the last application (applied again by "modulesagain")
 	var providers []godi.Provider
 	defer func() {
 		for _, p := range providers {
@@ -400,11 +404,13 @@ func registryScenario(sc *RScenario, raw []byte, run int) {
 				emit(ev)
 			case "remove":
 				c.Remove(typeByName(o.T))
+				twin.Remove(typeByName(o.T))
 				emit(M{"ev": "remove", "t": o.T})
 			case "removekeyed":
 				c.RemoveKeyed(typeByName(o.T), keyOf(o.K))
+				twin.RemoveKeyed(typeByName(o.T), keyOf(o.K))
 				emit(M{"ev": "removekeyed", "t": o.T, "k": o.K})
-			case "modules":
+			case "modules", "modulesagain":
 				for li := range o.Leaves {
 					if o.Leaves[li].Kind == "add" {
 						itemOf(o.Leaves[li].Item)
@@ -415,7 +421,6 @@ func registryScenario(sc *RScenario, raw []byte, run int) {
 					items[id] = *itemOf(id)
 				}
 				// twin: the same calls issued directly, left to right, stopping at the first failure
-				twin := godi.NewCollection()
 				R.fnReg = map[string]string{}
 				for li := range o.Leaves {
 					// the direct calls themselves (not the module builders applied by hand)
@@ -443,7 +448,10 @@ func registryScenario(sc *RScenario, raw []byte, run int) {
 							ev["err"] = []string{"panic"}
 						}
 					}()
-					err := c.AddModules(buildTree(items, o.Leaves, 0)...)
+					if o.Op == "modules" || lastMods == nil {
+						lastMods = buildTree(items, o.Leaves, 0)
+					}
+					err := c.AddModules(lastMods...)
 					ev["err"] = classify(err)
 					ev["chain"] = moduleChain(err)
 				}()
@@ -483,6 +491,9 @@ func registryScenario(sc *RScenario, raw []byte, run int) {
 			if o.Op != "build" {
 				q := queryVector(c)
 				q["ev"], q["after"] = "q", o.Op
+				if o.Op == "modulesagain" {
+					q["after"] = "modules"
+				}
 				emit(q)
 				for pi, p := range providers {
 					if p == nil {
